@@ -14,15 +14,37 @@ VARIABLES l,        \* next line of TraceLog
           verdict,
           expect,   \* [Ctxs -> what the end of a non-executed request must look like]
           lastk,    \* kind of the request that ended last ("new", "replay", ...)
-          nonconf   \* snapshots whose leaf open counts differ from the reference
+          nonconf,  \* snapshots whose leaf open counts differ from the reference
                     \* without any predicate failing (counted, the trace goes on)
+          stats,    \* how often the antecedents of the predicates were true (vacuity report)
+          pleafnc,  \* the previous snapshot's leaf open counts differed from the reference
+          lastb,    \* ghost: who was granted a lock covering the byte at offset 2^64-1
+                    \* (which the reference's table cannot express): [f, i, lo, t]
+          argh      \* ghost: [session][slot] -> hash of the complete arguments of the
+                    \* request that was executed last on that slot
 
-tvars == <<vars, l, verdict, expect, lastk, nonconf>>
+tvars == <<vars, l, verdict, expect, lastk, nonconf, stats, pleafnc, lastb, argh>>
 
 Line == TraceLog[l]
 IsEvent(e) == l <= Len(TraceLog) /\ Line.ev = e /\ l' = l + 1
 
-NoExpect == [kind |-> "none", c |-> MisorderedCache]
+\* sa: the arguments of the request are those of the request it repeats
+NoExpect == [kind |-> "none", c |-> MisorderedCache, quiet |-> TRUE, sa |-> TRUE]
+NoArgs == [s \in SessIds |-> [t \in Slots |-> ""]]
+SameArgs == IF Line.sid \in SessIds /\ Line.slot \in Slots THEN Line.ah = argh[Line.sid][Line.slot] ELSE TRUE
+\* Locks on the last byte die with the lock state of their owner on the file.
+LiveLast == {h \in lastb : \E m \in lofs : m.i = h.i /\ m.lo = h.lo /\ m.f = h.f}
+
+ZeroStats == [replays |-> 0, false_retries |-> 0, misordered |-> 0, seq_errors |-> 0,
+              noeffect_with_expiry |-> 0, noeffect_snapshots |-> 0,
+              crses_replays |-> 0, crses_out_of_order |-> 0,
+              dup_same |-> 0, dup_different |-> 0, dup_uncached |-> 0,
+              putfh_open_unlinked |-> 0, denied_replies |-> 0, io_held |-> 0,
+              inflight_snapshots |-> 0, destroy_while_held |-> 0,
+              expiry_with_open_state |-> 0, partial_expiry |-> 0, finals |-> 0,
+              last_byte_requests |-> 0, last_byte_held_by_other |-> 0, same_types_other_arguments |-> 0]
+Inc(f) == [stats EXCEPT ![f] = @ + 1]
+IncIf(c, f) == IF c THEN Inc(f) ELSE stats
 
 ResetTo(names) ==
   /\ clock' = 0 /\ pnow' = 0
@@ -42,15 +64,25 @@ ResetTo(names) ==
 TInit ==
   /\ InitState(<<>>)
   /\ l = 1 /\ verdict = "ok" /\ expect = [x \in Ctxs |-> NoExpect] /\ lastk = "none" /\ nonconf = 0
+  /\ stats = ZeroStats /\ pleafnc = FALSE /\ lastb = {} /\ argh = NoArgs
 
 Skip(v) == /\ UNCHANGED vars /\ verdict' = v
 
-KeepT == UNCHANGED <<expect, lastk, nonconf>>
+KeepT == UNCHANGED <<expect, lastk, nonconf, stats, pleafnc, lastb, argh>>
+KeepS == UNCHANGED <<expect, lastk, nonconf, pleafnc, lastb, argh>>   \* the action counts something in stats
+
+\* Lease expiry that the next enter() of the server performs.
+ExpiringNow == ExpiredAt(NowAt)
+ExpiryStats(st) ==
+  LET X == ExpiringNow
+      a == IF \E r \in oofs : r.i \in X THEN [st EXCEPT !.expiry_with_open_state = @ + 1] ELSE st
+  IN IF X # {} /\ \E k \in IncKeys : inc[k].live /\ k \notin X THEN [a EXCEPT !.partial_expiry = @ + 1] ELSE a
 
 TReset ==
   /\ IsEvent("reset")
   /\ ResetTo(Line.names)
-  /\ verdict' = "ok" /\ expect' = [x \in Ctxs |-> NoExpect] /\ lastk' = "none" /\ UNCHANGED nonconf
+  /\ verdict' = "ok" /\ expect' = [x \in Ctxs |-> NoExpect] /\ lastk' = "none" /\ UNCHANGED <<nonconf, stats>> /\ pleafnc' = FALSE
+  /\ lastb' = {} /\ argh' = NoArgs
 
 TClock ==
   /\ IsEvent("clock")
@@ -89,13 +121,17 @@ SidReply(op, x) ==
 
 LtName(t) == IF t = "S" THEN "R" ELSE "W"
 
-\* A denied reply must report a lock that really conflicts.
+\* A denied reply must report a lock that really conflicts: a range that the
+\* reported owner holds with the reported type (not necessarily a maximal
+\* one: how the table merges adjacent ranges is left open) and that contains
+\* a byte on which the request conflicts with that owner.
 DeniedOK(d) ==
-  \E h \in reply'.confl :
-    /\ inc[h.i].cid = d.cid /\ h.lo = d.lo
-    /\ d.s <= h.b /\ h.b < d.e
-    /\ LtName(h.t) = d.lt
-    /\ <<d.s, d.e>> \in RunsOf(held, h.f, h.i, h.lo)
+  /\ d.s < d.e
+  /\ \E h \in reply'.confl :
+       /\ inc[h.i].cid = d.cid /\ h.lo = d.lo
+       /\ d.s <= h.b /\ h.b < d.e
+       /\ LtName(h.t) = d.lt
+       /\ \A b \in d.s .. (d.e - 1) : TypeAt(held, h.f, h.i, h.lo, b) = h.t
 
 Denied(op) ==
   IF reply'.st # Line.st THEN Classify(op, reply'.st, Line.st)
@@ -119,34 +155,54 @@ TExid ==
                ELSE IF Line.conf # reply'.conf THEN "NC:confirmed-flag-differs"
                ELSE IF Line.sq # reply'.sq THEN "NC:create-session-sequence-differs"
                ELSE "ok"
-  /\ KeepT
+  /\ stats' = ExpiryStats(stats) /\ KeepS
 
+\* CREATE_SESSION has its own replay cache (one entry per client incarnation):
+\* a retransmission (sequence = the last one executed) must get the first
+\* reply and must not create another session; any sequence other than the
+\* next one must not execute.
 TCrses ==
   /\ IsEvent("crses")
   /\ CreateSession(Line.cid, Line.sq, IF Line.sid \in SessIds THEN Line.sid ELSE NewSid)
-  /\ verdict' = IF reply'.st # Line.st THEN Classify("CREATE_SESSION", reply'.st, Line.st)
-                ELSE IF Line.st = "OK" /\ Line.sid # reply'.sid THEN "NC:session-id-differs"
-                ELSE IF Line.st = "OK" /\ Line.nslots # NSlots THEN "NC:slot-count"
-                ELSE "ok"
-  /\ KeepT
+  /\ LET E == Entered
+         ks == IncByCid(E, Line.cid)
+         r == E.inc[CHOOSE k \in ks : TRUE]
+         retrans == ks # {} /\ Line.sq = r.cs /\ r.csst = "OK"
+         outOfOrder == ks # {} /\ Line.sq # r.cs + 1
+     IN /\ verdict' =
+             IF outOfOrder /\ Line.st = "OK" /\ ~(retrans /\ Line.sid = r.cssid)
+               THEN "C19:create-session-retransmission-or-out-of-order-request-executed"
+             ELSE IF retrans /\ (Line.st # "OK" \/ Line.sid # r.cssid)
+               THEN "C19:retransmitted-create-session-got-a-different-reply"
+             ELSE IF reply'.st # Line.st THEN Classify("CREATE_SESSION", reply'.st, Line.st)
+             ELSE IF Line.st = "OK" /\ Line.sid # reply'.sid THEN "NC:session-id-differs"
+             ELSE IF Line.st = "OK" /\ Line.nslots # NSlots THEN "NC:slot-count"
+             ELSE "ok"
+        /\ lastk' = IF ~outOfOrder THEN "new"
+                    ELSE IF ExpiringNow # {} THEN "expiry"
+                    ELSE IF retrans THEN "replay" ELSE "misordered"
+        /\ stats' = ExpiryStats(IF retrans THEN Inc("crses_replays")
+                                ELSE IF outOfOrder THEN Inc("crses_out_of_order") ELSE stats)
+  /\ UNCHANGED <<expect, nonconf, pleafnc, lastb, argh>>
 
 TDsess ==
   /\ IsEvent("dsess")
   /\ DestroySession(Line.sid)
   /\ verdict' = Status("DESTROY_SESSION")
-  /\ KeepT
+  /\ stats' = ExpiryStats(stats) /\ KeepS
 
 TDcid ==
   /\ IsEvent("dcid")
   /\ DestroyClientID(Line.cid)
   /\ verdict' = Status("DESTROY_CLIENTID")
-  /\ KeepT
+  /\ stats' = ExpiryStats(IncIf(\E k \in IncByCid(Entered, Line.cid) : Entered.inc[k].hold > 0, "destroy_while_held"))
+  /\ KeepS
 
 TTrigger ==
   /\ IsEvent("trigger")
   /\ Trigger
   /\ verdict' = IF Line.st = "BADSESSION" THEN "ok" ELSE "NC:status-differs-from-reference"
-  /\ KeepT
+  /\ stats' = ExpiryStats(stats) /\ KeepS
 
 -----------------------------------------------------------------------------
 (* SEQUENCE and the end of a COMPOUND.                                     *)
@@ -155,8 +211,11 @@ TSeq ==
   /\ IsEvent("seq")
   /\ IF Line.x \notin Ctxs \/ cx[Line.x].kind # "idle" THEN Skip("NC:harness-context") /\ KeepT
      ELSE /\ SeqStart(Line.x, Line.sid, Line.slot, Line.sq, Line.cache, Line.shape)
-          /\ expect' = [expect EXCEPT ![Line.x] = [kind |-> reply'.kind, c |-> reply'.c]]
-          /\ UNCHANGED <<lastk, nonconf>>
+          /\ expect' = [expect EXCEPT ![Line.x] = [kind |-> reply'.kind, c |-> reply'.c, quiet |-> (ExpiringNow = {}),
+                                                  sa |-> SameArgs]]
+          /\ argh' = IF reply'.kind = "new" THEN [argh EXCEPT ![Line.sid][Line.slot] = Line.ah] ELSE argh
+          /\ UNCHANGED <<lastk, nonconf, pleafnc, lastb>>
+          /\ stats' = ExpiryStats(IncIf(reply'.kind = "replay" /\ ~SameArgs, "same_types_other_arguments"))
           /\ verdict' =
                IF Line.st = "PANIC" THEN "ok"   \* the panic event follows
                ELSE IF reply'.kind = "new" THEN
@@ -176,15 +235,29 @@ TEnd ==
        /\ SeqEnd(x, Line.rh)
        /\ verdict' = IF Line.sts # reply'.res.sts \/ Line.rops # reply'.res.ops THEN "NC:reply-summary" ELSE "ok"
        /\ expect' = [expect EXCEPT ![x] = NoExpect]
-       /\ lastk' = "new" /\ UNCHANGED nonconf
+       /\ lastk' = "new" /\ UNCHANGED <<nonconf, pleafnc, lastb, argh>>
+       /\ stats' = ExpiryStats(stats)
      ELSE
        /\ UNCHANGED vars
        /\ expect' = [expect EXCEPT ![x] = NoExpect]
-       /\ lastk' = expect[x].kind /\ UNCHANGED nonconf
+       \* a request that was not executed but made the server expire leases
+       \* is not a witness for "no side effects"
+       /\ lastk' = IF expect[x].quiet THEN expect[x].kind ELSE "expiry"
+       /\ UNCHANGED <<nonconf, pleafnc, lastb, argh>>
+       /\ stats' = LET k == expect[x].kind IN
+                   IF k \in {"replay", "false", "misordered", "error"} /\ ~expect[x].quiet THEN Inc("noeffect_with_expiry")
+                   ELSE IF k = "replay" THEN Inc("replays")
+                   ELSE IF k = "false" THEN Inc("false_retries")
+                   ELSE IF k = "misordered" THEN Inc("misordered")
+                   ELSE IF k = "error" THEN Inc("seq_errors")
+                   ELSE stats
        /\ verdict' =
             LET k == expect[x].kind  c == expect[x].c IN
             IF k = "replay" THEN
-              (IF SameAs(c) THEN "ok" ELSE "C19:retransmission-got-a-different-reply")
+              \* (same operation types but other arguments: the cached reply
+              \* or a rejection, the statement leaves that open)
+              (IF SameAs(c) \/ (~expect[x].sa /\ Line.sts[1] # "OK") THEN "ok"
+               ELSE "C19:retransmission-got-a-different-reply")
             ELSE IF k = "false" THEN
               (IF Line.sts[1] = "OK" \/ (c.frh # "" /\ Line.rh = c.frh) \/ (c.rh # "" /\ Line.rh = c.rh)
                  THEN "C19:request-with-different-content-answered-from-the-reply-cache"
@@ -202,7 +275,8 @@ TDupStart ==
   /\ IF Line.x \notin Ctxs \/ cx[Line.x].kind # "idle" THEN Skip("NC:harness-context")
      ELSE /\ SeqStart(Line.x, Line.sid, Line.slot, Line.sq, Line.cache, Line.shape)
           /\ verdict' = IF reply'.kind = "wait" THEN "ok" ELSE "NC:harness-duplicate-not-in-flight"
-  /\ KeepT
+  /\ expect' = IF Line.x \in Ctxs THEN [expect EXCEPT ![Line.x] = [NoExpect EXCEPT !.kind = "wait", !.sa = SameArgs]] ELSE expect
+  /\ UNCHANGED <<lastk, nonconf, stats, pleafnc, lastb, argh>>
 
 TDupEnd ==
   /\ IsEvent("dupend")
@@ -214,12 +288,18 @@ TDupEnd ==
                LET r == cx[x].res IN
                IF cx[x].same THEN
                  (IF Line.sts = r.sts /\ Line.rops = r.ops /\ Line.rh = r.rh THEN "ok"
+                  ELSE IF ~expect[x].sa /\ Line.sts[1] # "OK" THEN "ok"   \* other arguments: may be rejected
                   ELSE "C19:duplicate-in-flight-did-not-get-the-originals-reply")
                ELSE IF Line.sts[1] = "OK" \/ Line.rh = r.rh
                  THEN "C19:duplicate-in-flight-with-different-content-answered-with-the-originals-reply"
                ELSE IF Line.sts # <<"SEQ_FALSE_RETRY">> THEN "NC:status-differs-from-reference"
                ELSE "ok"
-  /\ KeepT
+  /\ stats' = LET x == Line.x IN
+              IF x \notin Ctxs \/ cx[x].kind # "woken" THEN stats
+              ELSE IF ~cx[x].same THEN Inc("dup_different")
+              ELSE IF cx[x].res.sts # sess[cx[x].sid].slots[cx[x].slot].c.sts THEN Inc("dup_uncached")
+              ELSE Inc("dup_same")
+  /\ KeepS
 
 TDupHang ==
   /\ IsEvent("duphang")
@@ -247,7 +327,8 @@ CanOp == Line.x \in Ctxs /\ Running(Line.x)
 NoStep == Skip("NC:harness-operation-outside-running-compound")
 
 TPutRootFH == OpLine("PUTROOTFH") /\ IF CanOp THEN PutRootFH(Line.x) /\ verdict' = Status("PUTROOTFH") ELSE NoStep
-TPutFH     == OpLine("PUTFH") /\
+TPutFH     == IsEvent("PUTFH") /\ KeepS /\
+                stats' = IncIf(CanOp /\ Line.fh \in Files /\ fst[Line.fh] = "unlinked" /\ InPool(oofs, Line.fh), "putfh_open_unlinked") /\
                 IF CanOp THEN /\ PutFH(Line.x, Line.fh)
                               /\ verdict' = Status(IF Line.fh \in Files /\ fst[Line.fh] = "unlinked" /\ InPool(oofs, Line.fh)
                                                    THEN "PUTFH-open-unlinked" ELSE "PUTFH")
@@ -279,18 +360,46 @@ TOpenDowngrade ==
 
 TClose == OpLine("CLOSE") /\ IF CanOp THEN Close(Line.x, SidOf(Line.sid)) /\ verdict' = Status("CLOSE") ELSE NoStep
 
-TLock ==
-  OpLine("LOCK") /\
-    IF CanOp THEN /\ Lock(Line.x, Line.lt, Line.rk, Line.s, Line.e, Line.newo, SidOf(Line.osid), Line.lo, SidOf(Line.lsid), Line.rsid.o)
-                  /\ verdict' = IF reply'.st = "OK" /\ Line.st = "OK" THEN SidReply("LOCK", Line.x) ELSE Denied("LOCK")
-    ELSE NoStep
+\* The byte at offset 2^64-1.  The reference refuses requests for exactly
+\* that byte, but a server may accept them: then (MRk) the reference follows
+\* and the byte is kept as ghost state (lastb), judged like any other byte:
+\* two different owners must not both be granted it unless both locks are
+\* shared.  A range through end of file (length all ones) covers it too.
+MRk == IF Line.rk = "last" /\ Line.st = "OK" THEN "lastok" ELSE Line.rk
+CoversLast == Line.rk = "last" \/ (Line.rk = "range" /\ Line.e = N)
+LStats == LET a == IncIf(Line.st = "DENIED", "denied_replies")
+              b == IF Line.rk \in {"last", "last1"} THEN [a EXCEPT !.last_byte_requests = @ + 1] ELSE a
+          IN IF Line.rk = "last" /\ LiveLast # {} THEN [b EXCEPT !.last_byte_held_by_other = @ + 1] ELSE b
+\* the lock state that a successful LOCK / LOCKU acted on
+LofOfReply(x) == CHOOSE m \in lofs' : m.i = cx[x].i /\ m.o = reply'.rsid.o
 
-TLockT == OpLine("LOCKT") /\
-            IF CanOp THEN LockTest(Line.x, Line.lt, Line.rk, Line.s, Line.e, Line.lo) /\ verdict' = Denied("LOCKT") ELSE NoStep
+TLock ==
+  IsEvent("LOCK") /\ UNCHANGED <<expect, lastk, nonconf, pleafnc, argh>> /\ stats' = LStats /\
+    IF CanOp THEN
+      /\ Lock(Line.x, Line.lt, MRk, Line.s, Line.e, Line.newo, SidOf(Line.osid), Line.lo, SidOf(Line.lsid), Line.rsid.o)
+      /\ LET granted == reply'.st = "OK" /\ Line.st = "OK"
+             me == LofOfReply(Line.x)
+             t == LockT(Line.lt)
+             clash == granted /\ CoversLast /\
+                        \E h \in LiveLast : h.f = me.f /\ ~(h.i = me.i /\ h.lo = me.lo) /\ (h.t = "X" \/ t = "X")
+         IN /\ verdict' = IF clash THEN "C20:two-owners-granted-conflicting-locks-covering-the-very-last-byte"
+                          ELSE IF granted THEN SidReply("LOCK", Line.x) ELSE Denied("LOCK")
+            /\ lastb' = IF granted /\ CoversLast
+                        THEN {h \in LiveLast : ~(h.f = me.f /\ h.i = me.i /\ h.lo = me.lo)}
+                               \cup {[f |-> me.f, i |-> me.i, lo |-> me.lo, t |-> t]}
+                        ELSE LiveLast
+    ELSE NoStep /\ UNCHANGED lastb
+
+TLockT == IsEvent("LOCKT") /\ KeepS /\ stats' = LStats /\
+            IF CanOp THEN LockTest(Line.x, Line.lt, MRk, Line.s, Line.e, Line.lo) /\ verdict' = Denied("LOCKT") ELSE NoStep
 
 TLockU ==
-  OpLine("LOCKU") /\
-    IF CanOp THEN /\ LockU(Line.x, SidOf(Line.sid), Line.rk, Line.s, Line.e)
+  IsEvent("LOCKU") /\ UNCHANGED <<expect, lastk, nonconf, pleafnc, argh>> /\ stats' = LStats /\
+    IF CanOp THEN /\ LockU(Line.x, SidOf(Line.sid), MRk, Line.s, Line.e)
+                  /\ lastb' = IF reply'.st = "OK" /\ Line.st = "OK" /\ CoversLast
+                              THEN LET me == LofOfReply(Line.x) IN
+                                   {h \in LiveLast : ~(h.f = me.f /\ h.i = me.i /\ h.lo = me.lo)}
+                              ELSE LiveLast
                   /\ verdict' = IF reply'.st # Line.st THEN Classify("LOCKU", reply'.st, Line.st)
                                 ELSE IF Line.st # "OK" THEN "ok"
                                 ELSE IF Line.rsid.o # reply'.rsid.o \/ Line.rsid.q # reply'.rsid.q THEN "NC:returned-state-id-seqid"
@@ -321,7 +430,7 @@ TIO(kind) ==
     ELSE NoStep
 
 TIOStart ==
-  /\ IsEvent("iostart") /\ KeepT
+  /\ IsEvent("iostart") /\ KeepS /\ stats' = Inc("io_held")
   /\ IF CanOp /\ ~\E io \in ios : io.x = Line.x THEN
        /\ IOStart(Line.x, Line.op, SidOf(Line.sid))
        /\ verdict' = IF reply'.st = "OK" THEN "ok" ELSE Classify(Line.op, reply'.st, "OK")
@@ -352,18 +461,48 @@ CidOf(i) == inc[i].cid
 ModelOofs == {[cid |-> CidOf(r.i), oo |-> r.oo, f |-> r.f, sh |-> r.sh, q |-> r.q, o |-> r.o] : r \in oofs}
 ModelLofs == {[cid |-> CidOf(r.i), oo |-> r.oo, f |-> r.f, lo |-> r.lo, sh |-> r.sh, q |-> r.q, o |-> r.o] : r \in lofs}
 ModelLocks == {[f |-> e.f, cid |-> CidOf(e.i), lo |-> e.lo, s |-> e.s, e |-> e.e, t |-> e.t] : e \in EntriesOf(held)}
-ModelIncs == {[own |-> k[1], ver |-> k[2], cid |-> inc[k].cid, conf |-> inc[k].conf, hold |-> inc[k].hold] :
+\* Client incarnation records including the owner bookkeeping: an incarnation
+\* is idle iff nothing holds it; it has an open-owner record per open-owner
+\* with an open file, a lock-owner record per lock-owner with lock state.
+ModelIncs == {[own |-> k[1], ver |-> k[2], cid |-> inc[k].cid, conf |-> inc[k].conf, hold |-> inc[k].hold,
+               idle |-> (inc[k].hold = 0),
+               \* (the time stamp of an incarnation that is held is not used)
+               seen |-> IF inc[k].hold = 0 THEN inc[k].seen ELSE 0,
+               noo |-> Cardinality({r.oo : r \in {r \in oofs : r.i = k}}),
+               nlofs |-> Cardinality({m \in lofs : m.i = k}),
+               los |-> {m.lo : m \in {m \in lofs : m.i = k}}] :
                 k \in {k \in IncKeys : inc[k].live}}
 ModelSess == {[sid |-> s, cid |-> CidOf(sess[s].i)] : s \in {s \in SessIds : sess[s].live}}
+\* Slot records: sequence number, busy flag, number of waiting duplicates and
+\* the shape of the cached reply (number of results, status of the last one).
+ModelSlots ==
+  UNION {{[sid |-> s, t |-> t, q |-> sess[s].slots[t].q, busy |-> sess[s].slots[t].busy,
+           w |-> Len(sess[s].slots[t].w), clen |-> Len(sess[s].slots[t].c.sts),
+           cst |-> sess[s].slots[t].c.sts[Len(sess[s].slots[t].c.sts)]] : t \in Slots}
+         : s \in {s \in SessIds : sess[s].live}}
+\* The lock table as a set of locked bytes (what the entries denote).
+ModelHeld == {[f |-> h.f, cid |-> CidOf(h.i), lo |-> h.lo, b |-> h.b, t |-> h.t] : h \in held}
 ModelDir == {[name |-> n, f |-> dir[n]] : n \in {n \in Names : dir[n] # 0}}
 
 ShSet(s) == (IF s \in {"R", "RW"} THEN {"R"} ELSE {}) \cup (IF s \in {"W", "RW"} THEN {"W"} ELSE {})
 
 ObsOofs == {[cid |-> r.cid, oo |-> r.oo, f |-> r.f, sh |-> ShSet(r.sh), q |-> r.q, o |-> r.o] : r \in Rng(Line.oofs)}
 ObsLofs == {[cid |-> r.cid, oo |-> r.oo, f |-> r.f, lo |-> r.lo, sh |-> ShSet(r.sh), q |-> r.q, o |-> r.o] : r \in Rng(Line.lofs)}
-ObsLocks == {[f |-> r.f, cid |-> r.cid, lo |-> r.lo, s |-> r.s, e |-> r.e, t |-> r.t] : r \in Rng(Line.locks)}
-ObsIncs == {[own |-> r.own, ver |-> r.ver, cid |-> r.cid, conf |-> r.conf, hold |-> r.hold] : r \in Rng(Line.incs)}
+ObsLocksAll == {[f |-> r.f, cid |-> r.cid, lo |-> r.lo, s |-> r.s, e |-> r.e, t |-> r.t] : r \in Rng(Line.locks)}
+\* (an entry [2^64-1, 2^64-1) is how a table of half-open ranges keeps a lock
+\* on the very last byte: it denotes no byte of Bytes, see lastb)
+ObsLocks == {r \in ObsLocksAll : ~(r.s = N /\ r.e = N)}
+ObsIncs == {[own |-> r.own, ver |-> r.ver, cid |-> r.cid, conf |-> r.conf, hold |-> r.hold, idle |-> r.idle,
+             seen |-> IF r.hold = 0 THEN r.seen ELSE 0,
+             noo |-> r.noo, nlofs |-> r.nlofs, los |-> Rng(r.los)] : r \in Rng(Line.incs)}
 ObsSess == {[sid |-> r.sid, cid |-> r.cid] : r \in Rng(Line.sess)}
+ObsSlots ==
+  UNION {{[sid |-> r.sid, t |-> j - 1, q |-> r.slots[j].q, busy |-> r.slots[j].busy, w |-> r.slots[j].w,
+           clen |-> r.slots[j].clen, cst |-> r.slots[j].cst] : j \in 1 .. Len(r.slots)}
+         : r \in Rng(Line.sess)}
+ObsHeld ==
+  UNION {{[f |-> r.f, cid |-> r.cid, lo |-> r.lo, b |-> b, t |-> r.t] : b \in {x \in Bytes : r.s <= x /\ x < r.e}}
+         : r \in ObsLocks}
 ObsDir == {[name |-> r.name, f |-> r.f] : r \in Rng(Line.linked)}
 
 Open1(lf, b) == IF b = "R" THEN lf.or - lf.cr ELSE lf.ow - lf.cw
@@ -388,7 +527,7 @@ LockCountVerdict ==
   IF \E r \in Rng(Line.lofs) : r.lc < 0 THEN "C20:negative-lock-count"
   ELSE IF \E r \in Rng(Line.lofs) :
             /\ Cardinality({q \in Rng(Line.lofs) : q.cid = r.cid /\ q.lo = r.lo /\ q.f = r.f}) = 1
-            /\ r.lc # Cardinality({e \in ObsLocks : e.cid = r.cid /\ e.lo = r.lo /\ e.f = r.f})
+            /\ r.lc # Cardinality({e \in ObsLocksAll : e.cid = r.cid /\ e.lo = r.lo /\ e.f = r.f})
     THEN "C20:lock-count-differs-from-number-of-table-entries"
   ELSE "ok"
 
@@ -407,8 +546,12 @@ LeafNC == "NC:leaf-open-count-differs-from-reference"
 
 TSnap ==
   /\ IsEvent("snap")
-  /\ UNCHANGED <<vars, expect, lastk>>
+  /\ UNCHANGED <<vars, expect, lastk, lastb, argh>>
   /\ nonconf' = IF LeafVerdict = LeafNC THEN nonconf + 1 ELSE nonconf
+  /\ pleafnc' = (LeafVerdict = LeafNC)
+  /\ stats' = LET a == IF lastk \in NoEffectKinds /\ Line.why = "c" THEN Inc("noeffect_snapshots") ELSE stats
+                  b == IF Line.why = "h" THEN [a EXCEPT !.inflight_snapshots = @ + 1] ELSE a
+              IN IF Line.why = "final" THEN [b EXCEPT !.finals = @ + 1] ELSE b
   /\ verdict' =
        LET after == lastk \in NoEffectKinds /\ Line.why = "c" IN
        IF Line.hookpanic # "" THEN "NC:state-hook-panicked"
@@ -419,14 +562,20 @@ TSnap ==
        ELSE IF \/ \E p \in Rng(Line.pool) : p.use # Cardinality({r \in ObsOofs : r.f = p.f})
                \/ \E r \in ObsOofs : ~\E p \in Rng(Line.pool) : p.f = r.f
          THEN "C18:opened-files-pool-does-not-account-for-the-open-files"
-       ELSE IF after /\ (ObsOofs # ModelOofs \/ ObsLofs # ModelLofs \/ ObsLocks # ModelLocks \/ ObsDir # ModelDir
-                           \/ LeafVerdict = LeafNC)
+       \* (every snapshot is compared with the reference, so a difference seen
+       \* right after a request that must not execute was caused by it)
+       ELSE IF after /\ (ObsOofs # ModelOofs \/ ObsLofs # ModelLofs \/ ObsHeld # ModelHeld \/ ObsDir # ModelDir
+                           \/ (LeafVerdict = LeafNC /\ ~pleafnc))
          THEN "C19:request-that-must-not-execute-changed-state"
-       ELSE IF ObsLocks # ModelLocks THEN "C20:lock-table-differs-from-reference"
+       ELSE IF after /\ (ObsSlots # ModelSlots \/ ObsSess # ModelSess)
+         THEN "C19:request-that-must-not-execute-changed-slot-or-session-state"
+       ELSE IF ObsHeld # ModelHeld THEN "C20:lock-table-differs-from-reference"
+       ELSE IF ObsLocks # ModelLocks THEN "NC:lock-table-entries-differ-from-reference"
        ELSE IF ObsOofs # ModelOofs THEN "NC:open-state-differs-from-reference"
        ELSE IF ObsLofs # ModelLofs THEN "NC:lock-state-differs-from-reference"
        ELSE IF ObsIncs # ModelIncs THEN "NC:client-records-differ-from-reference"
        ELSE IF ObsSess # ModelSess THEN "NC:session-records-differ-from-reference"
+       ELSE IF ObsSlots # ModelSlots THEN "NC:slot-records-differ-from-reference"
        ELSE IF ObsDir # ModelDir THEN "NC:directory-differs-from-reference"
        ELSE IF ~Line.lk THEN "NC:server-lock-left-held"
        ELSE "ok"
@@ -447,7 +596,7 @@ VerdictOK == verdict = "ok"
 \* Only what the python side needs is printed for a failing trace.
 TraceAlias == [l |-> l, verdict |-> verdict, nonconf |-> nonconf]
 
-NonconfReport == (l <= Len(TraceLog)) \/ PrintT(<<"NONCONF", nonconf>>)
+NonconfReport == (l <= Len(TraceLog)) \/ (PrintT(<<"NONCONF", nonconf>>) /\ PrintT(<<"STATS", ToJson(stats)>>))
 
 Accepted ==
   /\ TLCGet("stats").diameter - 1 = Len(TraceLog)
